@@ -181,7 +181,9 @@ MCRestart == IsSession /\ Restart
 MCToggle  == IsSession /\ \E gg \in {2, 5}, mm \in 1 .. 2 : Toggle(gg, mm)
 MCSetArgs == IsSession /\ \E gg \in {2}, a \in {"p", "r"} : SetArgs(gg, 1, a)
 MCResched == IsSession /\ \E n \in 1 .. MAXSTEPS, nd \in BOOLEAN : Reschedule(TimesOf(n), 0, nd)
-MCSpec == MCInit /\ [][MCNext \/ MCRestart \/ MCToggle \/ MCSetArgs \/ MCResched]_vars
+\* sessions of the storage family: the detector file is rewritten between runs
+MCRewrite == FAMILY = "storage" /\ (Restart \/ \E st \in {Stored0, PartialStored} : Rewrite(st))
+MCSpec == MCInit /\ [][MCNext \/ MCRestart \/ MCToggle \/ MCSetArgs \/ MCResched \/ MCRewrite]_vars
 
 \* Flux instance: with start offset the times are shifted so that T(k) - start
 \* is the composition; the invariants of C17 apply to this family only.
